@@ -64,6 +64,18 @@ theorem coerce_canonical :
   · rw [(coerce_canonical_targets l m r₁ h₁).1, (coerce_canonical_targets l m r₂ h₂).1]
     exact ⟨rfl, rfl⟩
 
+/-- **C20 (pre-encoded float labels with a classification metric)** Binarised labels given as 32- or 64-bit floats,
+tensors or arrays, shaped `(n,)` or `(n,1)` — and one-hot `(n,K)` matrices — all reach the tree builder (training
+and validation side alike) as the same float32 `(n,1)` / `(n,K)` tensor. -/
+theorem coerce_canonical_float_class (l : Logical) (r : Rep) (h : documentedYFloatClass l r = true) :
+    coerceYFloatClass r = canonYFloatClass l ∧ (canonYFloatClass l).isSome = true := by
+  have : ∀ l ∈ allLogical, ∀ r ∈ allReps, documentedYFloatClass l r = true →
+      coerceYFloatClass r = canonYFloatClass l ∧ (canonYFloatClass l).isSome = true := by decide
+  exact this l (by cases l <;> decide) r (mem_allReps r) h
+
+/-- Non-vacuity: 8 binarised and 4 one-hot representations. -/
+example : allLogical.map (fun l => (allReps.filter (documentedYFloatClass l)).length) = [0, 0, 8, 4] := by decide
+
 /-- Symbolic column counts evaluate to the documented numbers: one column for single-output regression and for
 binary zero-one labels, `outs`, `K` (one-hot), `K-1` (prevalence); `predict_proba` always has `K` columns. -/
 theorem cols_eval (outs K d : Nat) :
